@@ -233,6 +233,22 @@ def check(ck):
             kind = None
             if prim:
                 kind = "primitive"
+                # between the type test and the return nothing is computed on the value (math.isnan / float() / hash() / a
+                # comparison of a huge int, a lone-surrogate str ... can raise for values inside the primitive types)
+                from vlib.model import is_logging_call as _ilc
+                for m_ in g.live_nodes():
+                    if prim[0].id in dom[m_.id] and m_.id != rn.id:
+                        for c_ in node_calls(m_):
+                            if _ilc(c_) and all(isinstance(a_, (ast.Name, ast.Constant)) for a_ in c_.args):
+                                continue
+                            if isinstance(c_.func, ast.Attribute) and c_.func.attr == "isEnabledFor":
+                                continue
+                            if dump(c_.func) == "isinstance":
+                                continue
+                            ck.bad("C15.4", "%s: `%s` in the primitive branch" % (q.fn(fi), dump(c_)[:40]),
+                                   "the primitive branch evaluates `%s` before returning the value: for some values of the primitive types "
+                                   "(an int beyond the float range, NaN, a str with a lone surrogate) such a computation raises, and "
+                                   "%s fails on plain data" % (dump(c_)[:50], fi.name), q.loc(fi, m_))
                 ck.require(t == ("param", "obj"), "C15.4", "%s: primitive branch `%s`" % (q.fn(fi), q.stmt_text(rn)),
                            "returns the argument itself", "a primitive is returned as %s instead of itself: its exact type/value is not preserved"
                            % prov.show(t), q.loc(fi, rn))
